@@ -120,7 +120,9 @@ def region_env(a, sl):
 
 def describe(template, args):
     a = [int(x) for x in args]
-    def s64(v): return v - (1 << 64) if v >> 63 else v
+    def s64(v):
+        v &= (1 << 64) - 1
+        return v - (1 << 64) if v >> 63 else v
     base = BASES[a[1]][0] if 0 <= a[1] < 8 else {8: '*const u8', 9: 'Nope'}.get(a[1], 'f32')
     attrs = [x for x, f in (('defaultable', a[3]), ('copyable', a[4]), ('cloneable', a[5])) if f]
     if a[6]: attrs.append('singleton(%d)' % s64(a[7]))
